@@ -79,7 +79,7 @@ def main():
         caught = {}
         for i in range(1, 21):
             c = 'C%02d' % i
-            rc, out = sh([PY, '-m', 'sfcv', 'check', c, '--root', wt], cwd='/verif')
+            rc, out = sh([PY, '-m', 'sfcv', 'check', c, '--root', wt], cwd='/verif', env=dict(os.environ, SFCV_OUT_DIR=wt + '/_sfcv_out'))
             viol = [l.strip() for l in out.splitlines() if l.startswith('  ') and ('  C%02d.' % i) in l]
             caught[c] = {'rc': rc, 'violations': [v[:300] for v in viol[:6]]}
             if rc != 0:
@@ -104,7 +104,6 @@ def main():
     finally:
         sh(['git', '-C', '/repo', 'worktree', 'remove', '--force', wt])
         shutil.rmtree(wt, ignore_errors=True)
-        sh(['git', '-C', '/verif', 'checkout', '--', 'evidence'])
 
 
 if __name__ == '__main__':
